@@ -731,6 +731,199 @@ static void run_leaks(void)
     if (mon_case_all("final-leakcheck")) { q_leakcheck("C16", "end of all histories"); mon_end(); }
 }
 
+
+/* ================================================================ C16: allocation-failure enumeration
+ * (fault_enumeration inside C16; LEDGER builds only).  For each operation of a scripted workload the
+ * number A of allocations the library makes is measured, then the operation is repeated A times with
+ * the n-th library allocation failing (malloc/calloc/posix_memalign return NULL/ENOMEM once).
+ * Judged: a call that reports an error keeps nothing allocated (ledger delta 0: the error exits of
+ * encode/decode/reconstruct/create free exactly what they allocated, nothing twice); a call that still
+ * reports success returned exact results; the next identical call works; everything is back to the
+ * baseline after destroy.  A NULL dereference caused by an unchecked allocation is *not* something
+ * C16 speaks about (it is neither a leak nor a double free nor a use of freed memory): such faults are
+ * counted (oom_unchecked_alloc_faults) and not reported. */
+extern long ledger_fail_seen(void);
+typedef struct { int kind; uint32_t erased; int dest; int mis; int force; const char *name; } oop_t;
+
+static int oom_do(live_t *L, const oop_t *o, int *exact)
+{
+    int n = L->s.n, k = L->c.k, rc = 0;
+    *exact = 1;
+    char *lst[64]; void *base[64]; int cnt = 0;
+    for (int i = 0; i < n && o->kind != 0; i++) {
+        if ((o->erased >> i) & 1) continue;
+        base[cnt] = NULL;
+        if (o->mis) { uint8_t *b = NULL; if (posix_memalign((void **)&b, 16, L->s.flen + 16)) abort(); memcpy(b + 1 + (i % 7), L->s.frag[i], L->s.flen); base[cnt] = b; lst[cnt] = (char *)b + 1 + (i % 7); }
+        else lst[cnt] = (char *)L->s.frag[i];
+        cnt++;
+    }
+    switch (o->kind) {
+    case 0: { char **ed = NULL, **ep = NULL; uint64_t fl = 0;
+              rc = liberasurecode_encode(L->desc, (char *)L->data, L->s.len, &ed, &ep, &fl);
+              if (rc == 0) { if (fl != L->s.flen) *exact = 0; else for (int i = 0; i < n; i++) if (memcmp(L->s.frag[i], i < k ? ed[i] : ep[i - k], fl)) *exact = 0;
+                             liberasurecode_encode_cleanup(L->desc, ed, ep); } } break;
+    case 1: { char *out = NULL; uint64_t ol = 0; rc = liberasurecode_decode(L->desc, lst, cnt, L->s.flen, o->force, &out, &ol);
+              if (rc == 0) { *exact = ol == L->s.len && !memcmp(out, L->data, L->s.len); liberasurecode_decode_cleanup(L->desc, out); } } break;
+    case 2: { uint8_t *ob = malloc(L->s.flen); memset(ob, 0xCD, L->s.flen); rc = liberasurecode_reconstruct_fragment(L->desc, lst, cnt, L->s.flen, o->dest, (char *)ob);
+              if (rc == 0) *exact = !memcmp(ob, L->s.frag[o->dest], L->s.flen); free(ob); } break;
+    case 3: { int R[3] = { o->dest, -1, -1 }, X[2] = { n >= 3 ? (o->dest + 1) % n : -1, -1 }, N[40]; rc = liberasurecode_fragments_needed(L->desc, R, X, N); } break;
+    case 4: { fragment_metadata_t md; rc = liberasurecode_get_fragment_metadata(lst[0], &md); if (rc == 0) rc = liberasurecode_verify_stripe_metadata(L->desc, lst, cnt);
+              if (rc == 0 && is_invalid_fragment(L->desc, lst[cnt - 1])) *exact = 0; } break;
+    }
+    for (int i = 0; i < cnt; i++) free(base[i]);
+    return rc;
+}
+
+typedef struct { live_t *L; const oop_t *op; long nth; int rc0; const cfg_t *c; uint64_t len; } oomarg_t;
+#define OOM_FIRED 1
+#define OOM_SUCCEEDED 2
+#define OOM_ERROR 4
+
+/* child: one operation on the live instance with its nth library allocation failing */
+static int oom_child_op(void *v)
+{
+    oomarg_t *a = v; live_t *L = a->L; int ex, fl = 0;
+    qp_t q; q_begin(&q);
+    ledger_fail_arm(a->nth); int rc = oom_do(L, a->op, &ex); long fired = ledger_fail_disarm();
+    if (a->c->be == EC_BACKEND_NULL) ex = 1;
+    if (fired) fl |= OOM_FIRED;
+    if (rc > 0) mon_viol("C16", "oom-positive-rc", "%s returned %d when allocation #%ld failed", a->op->name, rc, a->nth);
+    if (rc == 0) { fl |= OOM_SUCCEEDED; if (!ex) mon_viol("C02", "oom-success-with-wrong-result", "%s reported success with wrong bytes when its allocation #%ld failed", a->op->name, a->nth); }
+    else fl |= OOM_ERROR;
+    q_zero(&q, "C16", "call during which an allocation failed (after its cleanup call if it succeeded)");
+    /* next identical call behaves normally */
+    int rc2 = oom_do(L, a->op, &ex);
+    if (a->c->be == EC_BACKEND_NULL) ex = 1;
+    if (rc2 != a->rc0 || !ex) mon_viol("C16", "oom-next-call-differs", "%s after a call that hit an allocation failure: rc=%d (normally %d) exact=%d", a->op->name, rc2, a->rc0, ex);
+    q_zero(&q, "C16", "follow-up call");
+    /* and the instance can be destroyed with everything returned */
+    qp_t q2; q_begin(&q2);
+    int d = L->desc; L->desc = -1;
+    if (liberasurecode_instance_destroy(d) != 0) mon_viol("C16", "oom-destroy-failed", "destroy after an allocation failure in %s failed", a->op->name);
+    q_delta(&q2, "C16", "destroy after the faulted call", -1, 0);
+    return fl;
+}
+
+/* child: create with its nth library allocation failing */
+static int oom_child_create(void *v)
+{
+    oomarg_t *a = v; const cfg_t *c = a->c; int fl = 0;
+    qp_t q; q_begin(&q); int before = registry_len();
+    ledger_fail_arm(a->nth); int d = lec_create(c); long fired = ledger_fail_disarm();
+    if (fired) fl |= OOM_FIRED;
+    if (d > 0) {
+        fl |= OOM_SUCCEEDED;
+        live_t L; memset(&L, 0, sizeof L); L.c = *c; cfg_key(c, L.ck, sizeof L.ck); L.desc = d; code_init(&L.cd, c);
+        rng_t r; rng_seed(&r, MO.seed, a->len); L.data = malloc(a->len); rng_fill(&r, L.data, a->len);
+        if (stripe_make(&L.s, d, c, L.data, a->len) != 0) mon_viol("C16", "oom-create-succeeded-but-unusable", "create returned %d although allocation #%ld failed, and the instance cannot encode", d, a->nth);
+        else live_roundtrip(&L, "C16", "instance created while an allocation failed", 0);
+        live_close(&L);
+        q_delta(&q, "C16", "create (allocation failure tolerated) + use + destroy", 0, 1);
+    } else {
+        fl |= OOM_ERROR;
+        if (d == 0) mon_viol("C16", "oom-create-returned-zero", "create returned 0 when allocation #%ld failed", a->nth);
+        q_zero(&q, "C16", "create that failed because an allocation failed");
+        if (registry_len() != before) mon_viol("C16", "oom-create-registered", "registry length changed from %d to %d although create failed", before, registry_len());
+    }
+    /* next create works, and everything is returned after its destroy */
+    { live_t L; if (live_open(&L, c, a->len, MO.seed) != 0) mon_viol("C16", "oom-next-create-failed", "create after a create that hit an allocation failure does not work");
+      else { live_roundtrip(&L, "C16", "create after failed create", 0); live_close(&L); } }
+    q_delta(&q, "C16", "after the follow-up create/destroy", 0, 1);
+    return fl;
+}
+
+static void oom_account(const mon_child_t *ch, const char *what, long nth)
+{
+    mon_count("evaluations", 1);
+    if (ch->faulted) {
+        if (ch->nullpage && ch->sig == 11) {
+            /* NULL-page dereference of the allocation that was made to fail: an unchecked malloc, which no
+             * property speaks about (not a leak, double free or use of freed memory): counted, not reported */
+            char nm[128]; snprintf(nm, sizeof nm, "oom_null_deref_in_%s", ch->site);
+            mon_count("oom_unchecked_alloc_null_deref", 1); mon_count(nm, 1);
+        } else {
+            char kind[160]; snprintf(kind, sizeof kind, "crash:signal:%d@%s", ch->sig, ch->site);
+            mon_viol("C16", kind, "%s: process faulted (signal %d, not a NULL-page access) in %s when allocation #%ld failed: wild pointer / freed memory on the error exit", what, ch->sig, ch->site, nth);
+        }
+        return;
+    }
+    if (ch->status < 0) { mon_logf("HARNESS forked oom case ended abnormally (status %d)", ch->status); return; }
+    if (ch->status & OOM_FIRED) mon_count("oom_injections", 1);
+    if (ch->status & OOM_SUCCEEDED) mon_count("oom_call_still_succeeded", 1);
+    if (ch->status & OOM_ERROR) mon_count("oom_call_reported_error", 1);
+}
+
+static void run_oom(void)
+{
+    ledger_refresh();
+    if (!ledger_available()) { mon_logf("HARNESS oom mode needs the ledger build"); return; }
+    static const cfg_t pool[] = { { EC_BACKEND_LIBERASURECODE_RS_VAND, 4, 2, 2, 0, CHKSUM_CRC32 }, { EC_BACKEND_FLAT_XOR_HD, 10, 5, 3, 0, CHKSUM_NONE }, { EC_BACKEND_FLAT_XOR_HD, 6, 6, 4, 0, CHKSUM_CRC32 },
+                                  { EC_BACKEND_NULL, 4, 2, 2, 0, CHKSUM_CRC32 }, { EC_BACKEND_ISA_L_RS_VAND, 4, 2, 2, 0, CHKSUM_CRC32 }, { EC_BACKEND_ISA_L_RS_CAUCHY, 5, 3, 3, 0, CHKSUM_NONE },
+                                  { EC_BACKEND_LIBERASURECODE_RS_VAND, 10, 4, 4, 0, CHKSUM_NONE }, { EC_BACKEND_FLAT_XOR_HD, 10, 5, 4, 0, CHKSUM_CRC32 },
+                                  { EC_BACKEND_LIBERASURECODE_RS_VAND, 1, 1, 1, 0, CHKSUM_CRC32 }, { EC_BACKEND_FLAT_XOR_HD, 20, 6, 4, 0, CHKSUM_NONE } };
+    /* warm-up (lazy libc / ld.so state) */
+    { cfg_t c = pool[0]; live_t L; if (live_open(&L, &c, 10, 1) == 0) live_close(&L); if (isal_ok) { cfg_t c2 = pool[4]; if (live_open(&L, &c2, 10, 1) == 0) live_close(&L); } ledger_refresh(); }
+    int npool = (int)(sizeof pool / sizeof pool[0]);
+    for (int pi = 0; pi < npool; pi++) {
+        cfg_t c = pool[pi];
+        if (!isal_ok && (c.be == EC_BACKEND_ISA_L_RS_VAND || c.be == EC_BACKEND_ISA_L_RS_CAUCHY)) continue;
+        char ck[96]; cfg_key(&c, ck, sizeof ck);
+        int n = c.k + c.m, k = c.k, tol = cfg_tol(&c);
+        uint64_t len = (uint64_t)k * 37 + 5;
+        /* ---- create under allocation failure ---- */
+        long Acreate = 0;
+        { ledger_fail_arm(1L << 40); int d = lec_create(&c); Acreate = ledger_fail_seen(); ledger_fail_disarm(); if (d > 0) liberasurecode_instance_destroy(d); ledger_refresh(); }
+        mon_count0("oom_alloc_sites_enumerated", Acreate);
+        for (long nth = 1; nth <= Acreate; nth++) {
+            if (!mon_case("%s|oom|create|alloc#%ld", ck, nth)) continue;
+            oomarg_t a = { NULL, NULL, nth, 0, &c, len }; mon_child_t ch;
+            if (mon_fork_run(oom_child_create, &a, &ch) != 0) mon_logf("HARNESS fork failed");
+            else oom_account(&ch, "create", nth);
+            mon_distinct("nontrivial", mon_hash_u64((uint64_t)nth, mon_hash_str(ck, 160)));
+            if (nth == 1) mon_sample("{\"config\":\"%s\",\"operation\":\"create\",\"library_allocations_in_this_call\":%ld,\"each_failed_once\":true}", ck, Acreate);
+            mon_end();
+        }
+        /* ---- operations on a live instance ---- */
+        oop_t ops[24]; int no = 0;
+        uint32_t d0 = 1u, d01 = 3u, p0 = 1u << k;
+        ops[no++] = (oop_t){ 0, 0, 0, 0, 0, "encode" };
+        ops[no++] = (oop_t){ 1, 0, 0, 0, 0, "decode-fastpath" };
+        ops[no++] = (oop_t){ 1, 0, 0, 1, 0, "decode-fastpath-misaligned" };
+        ops[no++] = (oop_t){ 1, 0, 0, 1, 1, "decode-fastpath-misaligned-forced" };
+        if (tol >= 1) { ops[no++] = (oop_t){ 1, d0, 0, 0, 0, "decode-1data" }; ops[no++] = (oop_t){ 1, d0, 0, 1, 1, "decode-1data-misaligned-forced" };
+                        ops[no++] = (oop_t){ 1, p0, 0, 1, 0, "decode-1parity-misaligned" };
+                        ops[no++] = (oop_t){ 2, d0, 0, 0, 0, "reconstruct-data" }; ops[no++] = (oop_t){ 2, d0, 0, 1, 0, "reconstruct-data-misaligned" };
+                        ops[no++] = (oop_t){ 2, p0, k, 1, 0, "reconstruct-parity-misaligned" }; ops[no++] = (oop_t){ 2, p0, 0, 0, 0, "reconstruct-available" }; }
+        if (tol >= 2) { ops[no++] = (oop_t){ 1, d01, 0, 1, 0, "decode-2data-misaligned" }; ops[no++] = (oop_t){ 1, d0 | p0, 0, 0, 1, "decode-data+parity-forced" };
+                        ops[no++] = (oop_t){ 2, d0 | p0, k, 0, 0, "reconstruct-parity-with-data-lost" }; ops[no++] = (oop_t){ 2, d01, 1, 1, 0, "reconstruct-data-2lost-misaligned" }; }
+        if (tol >= 3) { ops[no++] = (oop_t){ 1, 7u, 0, 0, 0, "decode-3data" }; ops[no++] = (oop_t){ 2, 7u, 2, 1, 0, "reconstruct-3lost-misaligned" }; }
+        if (k >= 2) ops[no++] = (oop_t){ 1, ((1u << n) - 1) & ~(1u << (n - 1)), 0, 0, 0, "decode-too-few" };   /* only the last parity present */
+        ops[no++] = (oop_t){ 3, 0, 0, 0, 0, "fragments_needed" };
+        ops[no++] = (oop_t){ 4, 0, 0, 1, 0, "metadata+validation" };
+        live_t L;
+        /* the instance the children inherit; created by every shard and after every restart (never inside a case) */
+        if (live_open(&L, &c, len, MO.seed) != 0) { if (mon_case_all("%s|oom|setup", ck)) { mon_viol("C16", "setup-failed", "create/encode failed"); mon_end(); } continue; }
+        ledger_refresh();
+        for (int oi = 0; oi < no; oi++) {
+            int ex; long A; int rc0;
+            { ledger_fail_arm(1L << 40); rc0 = oom_do(&L, &ops[oi], &ex); A = ledger_fail_seen(); ledger_fail_disarm(); }
+            mon_count0("oom_alloc_sites_enumerated", A);
+            if (c.be == EC_BACKEND_NULL) ex = 1;
+            if ((rc0 != 0) != (!strcmp(ops[oi].name, "decode-too-few")) || !ex) { if (mon_case_all("%s|oom|%s|baseline", ck, ops[oi].name)) { mon_viol("C16", "oom-baseline", "operation %s without injection: rc=%d exact=%d", ops[oi].name, rc0, ex); mon_end(); } continue; }
+            for (long nth = 1; nth <= A; nth++) {
+                if (!mon_case("%s|oom|%s|alloc#%ld", ck, ops[oi].name, nth)) continue;
+                oomarg_t a = { &L, &ops[oi], nth, rc0, &c, len }; mon_child_t ch;
+                if (mon_fork_run(oom_child_op, &a, &ch) != 0) mon_logf("HARNESS fork failed");
+                else oom_account(&ch, ops[oi].name, nth);
+                mon_distinct("nontrivial", mon_hash_u64((uint64_t)nth * 64 + (uint64_t)oi, mon_hash_str(ck, 162)));
+                if (nth == 1) mon_sample("{\"config\":\"%s\",\"operation\":\"%s\",\"library_allocations_in_this_call\":%ld,\"each_failed_once\":true}", ck, ops[oi].name, A);
+                mon_end();
+            }
+        }
+        live_close(&L);
+    }
+}
+
 /* ================================================================ C17 */
 static struct ec_backend_op_stubs real_ops, stub_ops;
 static long op_calls[6];            /* encode decode reconstruct fragments_needed init exit */
@@ -903,6 +1096,7 @@ int main(int argc, char **argv)
     mon_count0("ledger_available", ledger_available());
     if (!strcmp(PROP, "C13")) run_invalid();
     else if (!strcmp(PROP, "C14")) run_registry();
+    else if (!strcmp(PROP, "C16") && !strcmp(MO.mode, "oom")) run_oom();
     else if (!strcmp(PROP, "C16")) run_leaks();
     else if (!strcmp(PROP, "C17")) run_faults();
     else { mon_logf("HARNESS unknown property %s", PROP); mon_finish(); return 2; }
